@@ -14,6 +14,7 @@ harness/props/C16.py (every field + remaining bits/refs compared).
 import TonVerif.Proofs.Codec
 import TonVerif.Spec.Tlb.Block
 import TonVerif.Proofs.SrcTlbParsers
+import TonVerif.Proofs.SrcTlbParsersTx
 
 namespace TonVerif.Tlb
 open TonVerif
@@ -1300,5 +1301,230 @@ example :
 example : Src.AccountStatus false ⟨[true, false, true], []⟩ =
     some (Rd.obj "AccountStatus" [("type_", Rd.str "active")], ⟨[true], []⟩) := rfl
 
+
+
+/-! ## Source tie, second part: the REGENERATED parsers of tlb/transaction.py (`c16_src_*`, continued)
+
+`SrcTx.<Class>` (Generated/TlbParsersTx.lean) is regenerated on every run by harness/translate/tlbparsers_tx.py; the reader
+primitives it adds are Model/TlbRdTx.lean (`Rd.optional`, `Rd.viaRef`, `Rd.loadAddress`, `Rd.loadDict` = Maybe bit + root
+reference + Patricia walk, `Rd.dictValuesSorted`), the declared views Spec/Tlb/PyViewTx.lean (namespace `Tx`).  Same statement as
+above: on the spec encoding of ANY value followed by ANY trailer the parser of the working tree returns every field with its
+encoded value and leaves exactly the trailer.  Where the type contains a `MsgAddressInt`, the hypothesis `v.noVar = true` says
+that no `addr_var` address occurs in the value: the library's `load_address` has no `addr_var` (it raises on one), every other
+address form is covered.  `Transaction ↔ TransactionDescr` recursion: `SrcTx.Transaction b` is the parser with nesting budget `b`
+(Python has none), the spec type is `transactionF b` with the SAME budget; the theorems hold for every `b`. -/
+
+instance : Lawful Tx.transOrd := by unfold Tx.transOrd; infer_instance
+instance : Lawful Tx.transStorage := by unfold Tx.transStorage; infer_instance
+instance : Lawful Tx.transTickTock := by unfold Tx.transTickTock; infer_instance
+instance : Lawful Tx.transSplitPrepare := by unfold Tx.transSplitPrepare; infer_instance
+instance : Lawful Tx.transMergePrepare := by unfold Tx.transMergePrepare; infer_instance
+instance (tx : Codec) [Lawful tx] : Lawful (Tx.transSplitInstall tx) := by unfold Tx.transSplitInstall; infer_instance
+instance (tx : Codec) [Lawful tx] : Lawful (Tx.transMergeInstall tx) := by unfold Tx.transMergeInstall; infer_instance
+instance : Lawful Tx.intMsgInfo := by unfold Tx.intMsgInfo; infer_instance
+instance : Lawful Tx.extInMsgInfo := by unfold Tx.extInMsgInfo; infer_instance
+instance : Lawful Tx.extOutMsgInfo := by unfold Tx.extOutMsgInfo; infer_instance
+
+/-- `CurrencyCollection.deserialize` (tlb/block.py, read through by the transaction parsers; extra-currency dictionary included), regenerated from the source: on the spec encoding of ANY value followed by ANY trailer it returns every field with
+    its encoded value (view `Tx.view_CurrencyCollection`) and consumes exactly the encoded bits and refs. -/
+theorem c16_src_tx_CurrencyCollection (v : Val) (f : Frag) (he : currencyCollection.enc v = some f) (k : Frag) :
+    SrcTx.CurrencyCollection false (f ++ k) = some (Tx.view_CurrencyCollection v, k) :=
+  Tx.refines_CurrencyCollection.on_encoding v f he k
+
+/-- `ExtraCurrencyCollection.deserialize` (tlb/block.py): `load_dict(32, load_var_uint(5))` returns `None` / the dict of the `HashmapE 32 (VarUInteger 32)`, regenerated from the source: on the spec encoding of ANY value followed by ANY trailer it returns every field with
+    its encoded value (view `Tx.view_ExtraCurrencyCollection`) and consumes exactly the encoded bits and refs. -/
+theorem c16_src_tx_ExtraCurrencyCollection (v : Val) (f : Frag) (he : extraCurrencyCollection.enc v = some f) (k : Frag) :
+    SrcTx.ExtraCurrencyCollection false (f ++ k) = some (Tx.view_ExtraCurrencyCollection v, k) :=
+  Tx.refines_ExtraCurrencyCollection.on_encoding v f he k
+
+/-- `TrActionPhase.deserialize` (14 fields, three `Maybe`), regenerated from the source: on the spec encoding of ANY value followed by ANY trailer it returns every field with
+    its encoded value (view `view_TrActionPhase`) and consumes exactly the encoded bits and refs. -/
+theorem c16_src_TrActionPhase (v : Val) (f : Frag) (he : trActionPhase.enc v = some f) (k : Frag) :
+    SrcTx.TrActionPhase false (f ++ k) = some (view_TrActionPhase v, k) :=
+  Tx.refines_TrActionPhase.on_encoding v f he k
+
+/-- `TrCreditPhase.deserialize`, regenerated from the source: on the spec encoding of ANY value followed by ANY trailer it returns every field with
+    its encoded value (view `Tx.view_TrCreditPhase`) and consumes exactly the encoded bits and refs. -/
+theorem c16_src_TrCreditPhase (v : Val) (f : Frag) (he : trCreditPhase.enc v = some f) (k : Frag) :
+    SrcTx.TrCreditPhase false (f ++ k) = some (Tx.view_TrCreditPhase v, k) :=
+  Tx.refines_TrCreditPhase.on_encoding v f he k
+
+/-- `ImportFees.deserialize`, regenerated from the source: on the spec encoding of ANY value followed by ANY trailer it returns every field with
+    its encoded value (view `Tx.view_ImportFees`) and consumes exactly the encoded bits and refs. -/
+theorem c16_src_ImportFees (v : Val) (f : Frag) (he : importFees.enc v = some f) (k : Frag) :
+    SrcTx.ImportFees false (f ++ k) = some (Tx.view_ImportFees v, k) :=
+  Tx.refines_ImportFees.on_encoding v f he k
+
+/-- `TransactionOrdinary.deserialize` = the body of `trans_ord$0000` (the tag is read by `TransactionDescr.deserialize`), regenerated from the source: on the spec encoding of ANY value followed by ANY trailer it returns every field with
+    its encoded value (view `Tx.view_TransactionOrdinary`) and consumes exactly the encoded bits and refs. -/
+theorem c16_src_TransactionOrdinary (v : Val) (f : Frag) (he : Tx.transOrd.enc v = some f) (k : Frag) :
+    SrcTx.TransactionOrdinary false (f ++ k) = some (Tx.view_TransactionOrdinary v, k) :=
+  Tx.refines_TransactionOrdinary.on_encoding v f he k
+
+/-- `TransactionStorage.deserialize` = the body of `trans_storage$0001`, regenerated from the source: on the spec encoding of ANY value followed by ANY trailer it returns every field with
+    its encoded value (view `Tx.view_TransactionStorage`) and consumes exactly the encoded bits and refs. -/
+theorem c16_src_TransactionStorage (v : Val) (f : Frag) (he : Tx.transStorage.enc v = some f) (k : Frag) :
+    SrcTx.TransactionStorage false (f ++ k) = some (Tx.view_TransactionStorage v, k) :=
+  Tx.refines_TransactionStorage.on_encoding v f he k
+
+/-- `TransactionTickTock.deserialize` = the body of `trans_tick_tock$001`, regenerated from the source: on the spec encoding of ANY value followed by ANY trailer it returns every field with
+    its encoded value (view `Tx.view_TransactionTickTock`) and consumes exactly the encoded bits and refs. -/
+theorem c16_src_TransactionTickTock (v : Val) (f : Frag) (he : Tx.transTickTock.enc v = some f) (k : Frag) :
+    SrcTx.TransactionTickTock false (f ++ k) = some (Tx.view_TransactionTickTock v, k) :=
+  Tx.refines_TransactionTickTock.on_encoding v f he k
+
+/-- `TransactionSplitPrepare.deserialize` = the body of `trans_split_prepare$0100`, regenerated from the source: on the spec encoding of ANY value followed by ANY trailer it returns every field with
+    its encoded value (view `Tx.view_TransactionSplitPrepare`) and consumes exactly the encoded bits and refs. -/
+theorem c16_src_TransactionSplitPrepare (v : Val) (f : Frag) (he : Tx.transSplitPrepare.enc v = some f) (k : Frag) :
+    SrcTx.TransactionSplitPrepare false (f ++ k) = some (Tx.view_TransactionSplitPrepare v, k) :=
+  Tx.refines_TransactionSplitPrepare.on_encoding v f he k
+
+/-- `TransactionMergePrepare.deserialize` = the body of `trans_merge_prepare$0110`, regenerated from the source: on the spec encoding of ANY value followed by ANY trailer it returns every field with
+    its encoded value (view `Tx.view_TransactionMergePrepare`) and consumes exactly the encoded bits and refs. -/
+theorem c16_src_TransactionMergePrepare (v : Val) (f : Frag) (he : Tx.transMergePrepare.enc v = some f) (k : Frag) :
+    SrcTx.TransactionMergePrepare false (f ++ k) = some (Tx.view_TransactionMergePrepare v, k) :=
+  Tx.refines_TransactionMergePrepare.on_encoding v f he k
+
+/-- `InternalMsgInfo.deserialize` = `int_msg_info$0 …` (reads its own tag; two `load_address`, a CurrencyCollection), regenerated from the source: on the spec encoding of ANY value without an `addr_var` address, followed by ANY trailer,
+    it returns every field with its encoded value and consumes exactly the encoded bits and refs. -/
+theorem c16_src_InternalMsgInfo (v : Val) (f : Frag) (he : (ctag (tag 1 0) Tx.intMsgInfo).enc v = some f) (hv : v.noVar = true) (k : Frag) :
+    SrcTx.InternalMsgInfo false (f ++ k) = some (Tx.view_InternalMsgInfo v, k) :=
+  Tx.refines_InternalMsgInfo.on_encoding v f he hv k
+
+/-- `ExternalMsgInfo.deserialize` = `ext_in_msg_info$10 …`, regenerated from the source: on the spec encoding of ANY value without an `addr_var` address, followed by ANY trailer,
+    it returns every field with its encoded value and consumes exactly the encoded bits and refs. -/
+theorem c16_src_ExternalMsgInfo (v : Val) (f : Frag) (he : (ctag (tag 2 2) Tx.extInMsgInfo).enc v = some f) (hv : v.noVar = true) (k : Frag) :
+    SrcTx.ExternalMsgInfo false (f ++ k) = some (Tx.view_ExternalMsgInfo v, k) :=
+  Tx.refines_ExternalMsgInfo.on_encoding v f he hv k
+
+/-- `ExternalOutMsgInfo.deserialize` = `ext_out_msg_info$11 …`, regenerated from the source: on the spec encoding of ANY value without an `addr_var` address, followed by ANY trailer,
+    it returns every field with its encoded value and consumes exactly the encoded bits and refs. -/
+theorem c16_src_ExternalOutMsgInfo (v : Val) (f : Frag) (he : (ctag (tag 2 3) Tx.extOutMsgInfo).enc v = some f) (hv : v.noVar = true) (k : Frag) :
+    SrcTx.ExternalOutMsgInfo false (f ++ k) = some (Tx.view_ExternalOutMsgInfo v, k) :=
+  Tx.refines_ExternalOutMsgInfo.on_encoding v f he hv k
+
+/-- `CommonMsgInfo.deserialize` (dispatch on `preload_bit` / `preload_bits(2)` to the three info classes), regenerated from the source: on the spec encoding of ANY value without an `addr_var` address, followed by ANY trailer,
+    it returns every field with its encoded value and consumes exactly the encoded bits and refs. -/
+theorem c16_src_CommonMsgInfo (v : Val) (f : Frag) (he : commonMsgInfo.enc v = some f) (hv : v.noVar = true) (k : Frag) :
+    SrcTx.CommonMsgInfo false (f ++ k) = some (Tx.view_CommonMsgInfo v, k) :=
+  Tx.refines_CommonMsgInfo.on_encoding v f he hv k
+
+/-- `MsgMetadata.deserialize`, regenerated from the source: on the spec encoding of ANY value without an `addr_var` address, followed by ANY trailer,
+    it returns every field with its encoded value and consumes exactly the encoded bits and refs. -/
+theorem c16_src_MsgMetadata (v : Val) (f : Frag) (he : msgMetadata.enc v = some f) (hv : v.noVar = true) (k : Frag) :
+    SrcTx.MsgMetadata false (f ++ k) = some (Tx.view_MsgMetadata v, k) :=
+  Tx.refines_MsgMetadata.on_encoding v f he hv k
+
+/-- `MsgEnvelope.deserialize` (`msg_envelope#4` and `msg_envelope_v2#5`), regenerated from the source: on the spec encoding of ANY value without an `addr_var` address, followed by ANY trailer,
+    it returns every field with its encoded value and consumes exactly the encoded bits and refs. -/
+theorem c16_src_MsgEnvelope (v : Val) (f : Frag) (he : msgEnvelope.enc v = some f) (hv : v.noVar = true) (k : Frag) :
+    SrcTx.MsgEnvelope false (f ++ k) = some (Tx.view_MsgEnvelope v, k) :=
+  Tx.refines_MsgEnvelope.on_encoding v f he hv k
+
+/-- `InMsg.deserialize` (all nine constructors; nested `^Transaction` with the budget 3 of the spec's `transaction`), regenerated from the source: on the spec encoding of ANY value without an `addr_var` address, followed by ANY trailer,
+    it returns every field with its encoded value and consumes exactly the encoded bits and refs. -/
+theorem c16_src_InMsg (v : Val) (f : Frag) (he : inMsg.enc v = some f) (hv : v.noVar = true) (k : Frag) :
+    SrcTx.InMsg 3 false (f ++ k) = some ((Tx.view_InMsg (Tx.view_Transaction 3)) v, k) :=
+  Tx.refines_InMsg.on_encoding v f he hv k
+
+/-- `OutMsg.deserialize` (all ten constructors), regenerated from the source: on the spec encoding of ANY value without an `addr_var` address, followed by ANY trailer,
+    it returns every field with its encoded value and consumes exactly the encoded bits and refs. -/
+theorem c16_src_OutMsg (v : Val) (f : Frag) (he : outMsg.enc v = some f) (hv : v.noVar = true) (k : Frag) :
+    SrcTx.OutMsg 3 false (f ++ k) = some ((Tx.view_OutMsg (Tx.view_Transaction 3)) v, k) :=
+  Tx.refines_OutMsg.on_encoding v f he hv k
+
+/-- `MessageAny.deserialize`, regenerated from the source, on the spec encoding `f` of ANY `Message Any` without an `addr_var`
+    address (the type closes its cell: an inline body is the rest of the slice, which the parser returns as a cell without
+    consuming it): info, init (inline or by reference) and body (inline or by reference) are the encoded ones. -/
+theorem c16_src_MessageAny (v : Val) (f : Frag) (he : message.enc v = some f) (hv : v.noVar = true) :
+    ∃ k, SrcTx.MessageAny false f = some (Tx.view_Message v, k) :=
+  Tx.refines_Message f v Frag.nil (LawfulEnd.law v f he) hv
+
+/-- … and as every user parses it, `MessageAny.deserialize(S.load_ref().begin_parse())` against `^(Message Any)`: exactly the
+    reference is consumed. -/
+theorem c16_src_MessageAny_ref (v : Val) (f : Frag) (he : (ref message).enc v = some f) (hv : v.noVar = true) (k : Frag) :
+    Rd.viaRef SrcTx.MessageAny (f ++ k) = some (Tx.view_Message v, k) :=
+  (Tx.refines_Message.viaRef).on_encoding v f he hv k
+
+/-- `TransactionSplitInstall.deserialize` = the body of `trans_split_install$0101`, for every nesting budget `b` of the nested
+    `prepare_transaction:^Transaction` (parsed by `Transaction.deserialize` with that budget). -/
+theorem c16_src_TransactionSplitInstall (b : Nat) (v : Val) (f : Frag)
+    (he : (Tx.transSplitInstall (transactionF b)).enc v = some f) (hv : v.noVar = true) (k : Frag) :
+    SrcTx.TransactionSplitInstall (SrcTx.Transaction b) false (f ++ k) =
+      some (Tx.view_TransactionSplitInstall (Tx.view_Transaction b) v, k) :=
+  (Tx.refines_TransactionSplitInstall (Tx.refines_Transaction b).toE).on_encoding v f he hv k
+
+/-- `TransactionMergeInstall.deserialize` = the body of `trans_merge_install$0111`, for every nesting budget. -/
+theorem c16_src_TransactionMergeInstall (b : Nat) (v : Val) (f : Frag)
+    (he : (Tx.transMergeInstall (transactionF b)).enc v = some f) (hv : v.noVar = true) (k : Frag) :
+    SrcTx.TransactionMergeInstall (SrcTx.Transaction b) false (f ++ k) =
+      some (Tx.view_TransactionMergeInstall (Tx.view_Transaction b) v, k) :=
+  (Tx.refines_TransactionMergeInstall (Tx.refines_Transaction b).toE).on_encoding v f he hv k
+
+/-- `TransactionDescr.deserialize` (tag dispatch `load_bits(3)` / `+ load_bit()` to the seven description classes), for every
+    nesting budget `b` of a nested transaction: returns the object of the constructor's class with every field. -/
+theorem c16_src_TransactionDescr (b : Nat) (v : Val) (f : Frag)
+    (he : (transactionDescrF (transactionF b)).enc v = some f) (hv : v.noVar = true) (k : Frag) :
+    SrcTx.TransactionDescr (SrcTx.Transaction b) false (f ++ k) =
+      some (Tx.view_TransactionDescr (Tx.view_Transaction b) v, k) :=
+  (Tx.refines_TransactionDescr (Tx.refines_Transaction b).toE).on_encoding v f he hv k
+
+/-- `Transaction.deserialize` for EVERY nesting budget `b`: tag, the eight inline fields, the `^[ in_msg out_msgs ]` group
+    (`in_msg` Maybe-reference; `out_msgs` = the values of the `HashmapE 15 ^(Message Any)` in key order, `[]` when empty),
+    `total_fees`, `state_update:^HashUpdate`, `description:^TransactionDescr`. -/
+theorem c16_src_Transaction (b : Nat) (v : Val) (f : Frag) (he : (transactionF b).enc v = some f) (hv : v.noVar = true)
+    (k : Frag) :
+    SrcTx.Transaction b false (f ++ k) = some (Tx.view_Transaction b v, k) :=
+  (Tx.refines_Transaction b).on_encoding v f he hv k
+
+/-- the hand model of `Slice.load_address()` (Model/TlbRdTx.lean `Rd.loadAddress`; NOT regenerated: boc/slice.py) reads a
+    `MsgAddressExt` (`addr_none` → `None`, `addr_extern` → `ExternalAddress`) … -/
+theorem c16_model_load_address_ext (v : Val) (f : Frag) (he : msgAddressExt.enc v = some f) (k : Frag) :
+    Rd.loadAddress (f ++ k) = some (Tx.view_MsgAddressExt v, k) :=
+  Tx.refines_MsgAddressExt.on_encoding v f he k
+
+/-- … and a `MsgAddressInt` that is not `addr_var` (`addr_std`, with or without anycast → `Address`). -/
+theorem c16_model_load_address_int (v : Val) (f : Frag) (he : msgAddressInt.enc v = some f) (hv : v.noVar = true) (k : Frag) :
+    Rd.loadAddress (f ++ k) = some (Tx.view_MsgAddressInt v, k) :=
+  Tx.refines_MsgAddressInt.on_encoding v f he hv k
+
+/-- the dictionary walk of `load_dict` (Model/TlbRdTx.lean `Rd.dictWalk`) returns the entries of ANY decoded `Hashmap n X`
+    tree value, in order, given a value reader that agrees with `X` on the leaves. -/
+theorem c16_model_dict_walk (X : Codec) (rd : Frag → Rd.R) (w : Val → Val)
+    (hrd : ∀ s v, X.dec s = some (v, ⟨[], []⟩) → ∃ k, rd s = some (w v, k))
+    (n : Nat) (b : Bits) (r : List Cell) (tv : Val) (h : (hashmap n X).dec ⟨b, r⟩ = some (tv, ⟨[], []⟩)) :
+    Rd.dictWalk rd (n + 1) n [] (Cell.mk false b r) = some (flattenF w (n + 1) n [] tv) :=
+  dictWalk_sound X (fun _ => True) rd w (fun s v hd _ => hrd s v hd) (n + 1) n [] b r tv h (fun _ _ => trivial)
+
+/-- non-vacuity of the `noVar` hypothesis: a `MsgMetadata` with an `addr_std` address is encodable, has no `addr_var`, … -/
+example :
+    let v := Val.record [("depth", .int 1), ("initiator_addr", .con "addr_std" (.record [("anycast", .unit),
+      ("workchain_id", .int (-1)), ("address", .bits (List.replicate 256 true))])), ("initiator_lt", .int 5)]
+    (msgMetadata.enc v).isSome = true ∧ v.noVar = true := by
+  constructor
+  · decide +kernel
+  · decide +kernel
+
+/-- … while a value with an `addr_var` address does not satisfy it (the library raises on it) -/
+example : (Val.con "addr_var" .unit).noVar = false := by decide +kernel
+
+/-- non-vacuity: `TrCreditPhase` with `due_fees_collected = 3` and no extra currencies, followed by a trailer bit: the regenerated
+    parser returns the fields and leaves the trailer -/
+example :
+    SrcTx.TrCreditPhase false ⟨[true, false, false, false, true, false, false, false, false, false, false, true, true,
+        false, false, false, false, false, true], []⟩ =
+      some (Rd.obj "TrCreditPhase" [("due_fees_collected", .int 3),
+        ("credit", Rd.obj "CurrencyCollection" [("grams", .int 0), ("other", Rd.obj "ExtraCurrencyCollection" [("dict_", .unit)])])],
+        ⟨[true], []⟩) := by rfl
+
+
+/-- non-vacuity of `c16_src_Transaction`: the concrete transaction is encodable with budget 1 and has no `addr_var`, so the
+    regenerated `Transaction.deserialize` reads its encoding back, whatever follows -/
+example : ∃ f, (transactionF 1).enc Tx.exampleTransaction = some f ∧
+    ∀ k, SrcTx.Transaction 1 false (f ++ k) = some (Tx.view_Transaction 1 Tx.exampleTransaction, k) := by
+  have h1 : ((transactionF 1).enc Tx.exampleTransaction).isSome = true := by decide +kernel
+  have h2 : Tx.exampleTransaction.noVar = true := by decide +kernel
+  obtain ⟨f, hf⟩ := Option.isSome_iff_exists.1 h1
+  exact ⟨f, hf, fun k => c16_src_Transaction 1 Tx.exampleTransaction f hf h2 k⟩
 
 end TonVerif.Tlb
